@@ -584,12 +584,16 @@ def casadi_monitor(op, out):
 
 # ---------------------------------------------------------------- main
 
-def main(argv):
-    tier = C.tier_from_argv(argv)
+LIBS = ['problem/type-erased-problem.cpp', 'problem/problem-counters.cpp', 'util/demangled-typename.cpp',
+        'util/dl.cpp', 'util/io/csv.cpp', 'util/print.cpp']
+HFLAGS = ['-DC04_WITH_DL=1', '-DC04_WITH_CASADI=1']
+
+
+def prepare(tier):
+    """Generated TU list, plug-in and CasADi module; returns (masks, sources, plugin, rosen, errors)."""
     masks = ct_masks(tier)
     tus = generate_tus(masks)
-    inc = [a for a in C.INCLUDES]
-    flags_so = ['-std=c++20', '-O1', '-ffp-contract=off', '-fno-fast-math', '-w'] + inc
+    flags_so = ['-std=c++20', '-O1', '-ffp-contract=off', '-fno-fast-math', '-w'] + list(C.INCLUDES)
     plugin, err1 = build_shared('c04_plugin', os.path.join(C.VERIF, 'harness', 'c04_plugin.cpp'), C.CXX, flags_so)
     rosen, err2 = build_shared('c04_rosen', C.REPO + '/test/outer/rosenbrock_functions_test.c', 'gcc', ['-O1'])
     if plugin:
@@ -599,6 +603,39 @@ def main(argv):
     interop = [C.REPO + '/src/interop/dl/src/dl-problem.cpp',
                C.REPO + '/src/interop/casadi/src/CasADiProblem.cpp',
                C.REPO + '/src/interop/casadi/src/casadi-external-function.cpp']
+    sources = [os.path.join(C.VERIF, 'harness', 'c04.cpp')] + tus + interop + C.repo_lib_sources(LIBS)
+    return masks, sources, plugin, rosen, (err1, err2)
+
+
+def replay(r):
+    """`checks/replay.py <file>`: re-run the recorded op through the real code, the model and the monitor."""
+    op = (r.get('payload') or {}).get('op')
+    if not op:
+        print('replay: no input recorded (broken proof / tie):', r.get('what'))
+        return 1
+    masks, sources, plugin, rosen, _ = prepare(r.get('tier', 'quick'))
+    exe, log = C.build_exe('c04', sources, HFLAGS)
+    if exe is None:
+        print(log[-2000:])
+        return 1
+    h, _, _ = C.run_lines(exe, [op])
+    print('impl :', h[0] if h else None)
+    if op.startswith('cas '):
+        m = casadi_monitor(op, h[0]) if h else 'no output'
+    else:
+        dexe = C.driver_exe('drv_c04')
+        if os.path.exists(dexe):
+            d, _, _ = C.run_lines(dexe, [op])
+            print('model:', d[0] if d else None)
+            print('correspondence:', 'agree' if h and d and h[0].strip() == d[0].strip() else 'DIFFER')
+        m = monitor(op, h[0], {}) if h else 'no output'
+    print('monitor:', m)
+    return 1 if m else 0
+
+
+def main(argv):
+    tier = C.tier_from_argv(argv)
+    masks, sources, plugin, rosen, (err1, err2) = prepare(tier)
 
     def extra(rep, broken, exe, tier_):
         if not plugin:
@@ -616,10 +653,7 @@ def main(argv):
                        'Alpaqa/Proofs/C04Resolve.lean', 'Alpaqa/Proofs/C04Box.lean',
                        'Alpaqa/Proofs/C04Deriv.lean', 'Alpaqa/Proofs/Basic.lean', 'Driver/C04.lean'],
         harness_name='c04',
-        harness_sources=[os.path.join(C.VERIF, 'harness', 'c04.cpp')] + tus + interop + C.repo_lib_sources(
-            ['problem/type-erased-problem.cpp', 'problem/problem-counters.cpp',
-             'util/demangled-typename.cpp', 'util/dl.cpp', 'util/io/csv.cpp', 'util/print.cpp']),
-        harness_flags=['-DC04_WITH_DL=1', '-DC04_WITH_CASADI=1'],
+        harness_sources=sources, harness_flags=HFLAGS,
         gen_ops=make_gen_ops(masks), monitor=monitor, nontrivial=nontrivial,
         n_quick=6000, n_thorough=120000, extra_stage=extra,
         trusted_base=[
